@@ -34,44 +34,44 @@ Proof.
     apply Ok_inj in H; subst s'; clk_simpl; reflexivity.
 Qed.
 
-Lemma step_ok m o s s' :
-  step m o s = Ok s' -> clk s' = clk s + 1 /\ clk s' <= m.
+Lemma cstep_ok m lab o s s' :
+  cstep m lab o s = Ok s' -> clk s' = clk s + 1 /\ clk s' <= m.
 Proof.
-  unfold step, bind, advance_clock. destruct (exec_op o s) as [s1|e s1] eqn:E; [|discriminate].
-  apply exec_op_clk in E. cbn [clk set_clk].
+  unfold cstep, bind, advance_clock. destruct (exec_op o s) as [s1|e s1] eqn:E; [|discriminate].
+  apply exec_op_clk in E. cbn [clk set_clk log_op].
   destruct (m <? clk s1 + 1) eqn:L; [discriminate|]. intros H; apply Ok_inj in H; subst s'; cbn.
   apply Z.ltb_ge in L. lia.
 Qed.
 
 (* the outcome of a cycle under another limit *)
-Lemma step_limit_ge m m' o s s' :
-  step m o s = Ok s' -> clk s' <= m' -> step m' o s = Ok s'.
+Lemma cstep_limit_ge m m' lab o s s' :
+  cstep m lab o s = Ok s' -> clk s' <= m' -> cstep m' lab o s = Ok s'.
 Proof.
-  unfold step, bind, advance_clock. destruct (exec_op o s) as [s1|e s1] eqn:E; [|discriminate].
-  cbn [clk set_clk]. destruct (m <? clk s1 + 1) eqn:L; [discriminate|].
-  intros H; apply Ok_inj in H; subst s'; cbn [clk set_clk]. intros Hle.
+  unfold cstep, bind, advance_clock. destruct (exec_op o s) as [s1|e s1] eqn:E; [|discriminate].
+  cbn [clk set_clk log_op]. destruct (m <? clk s1 + 1) eqn:L; [discriminate|].
+  intros H; apply Ok_inj in H; subst s'; cbn [clk set_clk log_op]. intros Hle.
   destruct (m' <? clk s1 + 1) eqn:L'; [apply Z.ltb_lt in L'; lia | reflexivity].
 Qed.
 
-Lemma step_limit_lt m m' o s s' :
-  step m o s = Ok s' -> m' < clk s' -> step m' o s = Err (CycleLimit m') s'.
+Lemma cstep_limit_lt m m' lab o s s' :
+  cstep m lab o s = Ok s' -> m' < clk s' -> cstep m' lab o s = Err (CycleLimit m') s'.
 Proof.
-  unfold step, bind, advance_clock. destruct (exec_op o s) as [s1|e s1] eqn:E; [|discriminate].
-  cbn [clk set_clk]. destruct (m <? clk s1 + 1) eqn:L; [discriminate|].
-  intros H; apply Ok_inj in H; subst s'; cbn [clk set_clk]. intros Hlt.
+  unfold cstep, bind, advance_clock. destruct (exec_op o s) as [s1|e s1] eqn:E; [|discriminate].
+  cbn [clk set_clk log_op]. destruct (m <? clk s1 + 1) eqn:L; [discriminate|].
+  intros H; apply Ok_inj in H; subst s'; cbn [clk set_clk log_op]. intros Hlt.
   destruct (m' <? clk s1 + 1) eqn:L'; [reflexivity | apply Z.ltb_ge in L'; lia].
 Qed.
 
 (* failures of the operation itself do not depend on the limit *)
-Lemma step_op_err m o s e s1 : exec_op o s = Err e s1 -> step m o s = Err e s1.
-Proof. unfold step, bind. intros ->. reflexivity. Qed.
+Lemma cstep_op_err m lab o s e s1 : exec_op o s = Err e s1 -> cstep m lab o s = Err e s1.
+Proof. unfold cstep, bind. intros ->. reflexivity. Qed.
 
-Lemma step_err_cases m o s e s1 :
-  step m o s = Err e s1 ->
+Lemma cstep_err_cases m lab o s e s1 :
+  cstep m lab o s = Err e s1 ->
   exec_op o s = Err e s1 \/ (e = CycleLimit m /\ clk s1 = clk s + 1 /\ m < clk s1).
 Proof.
-  unfold step, bind, advance_clock. destruct (exec_op o s) as [s2|e2 s2] eqn:E.
-  - apply exec_op_clk in E. cbn [clk set_clk]. destruct (m <? clk s2 + 1) eqn:L; [|discriminate].
+  unfold cstep, bind, advance_clock. destruct (exec_op o s) as [s2|e2 s2] eqn:E.
+  - apply exec_op_clk in E. cbn [clk set_clk log_op]. destruct (m <? clk s2 + 1) eqn:L; [|discriminate].
     intros H; inversion H; subst; cbn. right. apply Z.ltb_lt in L. repeat split; lia.
   - intros H; inversion H; subst. left; reflexivity.
 Qed.
@@ -79,3 +79,6 @@ Qed.
 (* the interpreter executes pure operations through [pure_op] *)
 Lemma exec_op_pure o s : is_pure o = true -> exec_op o s = lift_pure s (pure_op o (stk s)).
 Proof. destruct o; intros H; try discriminate H; reflexivity. Qed.
+
+Lemma step_ok m o s s' : step m o s = Ok s' -> clk s' = clk s + 1 /\ clk s' <= m.
+Proof. apply cstep_ok. Qed.
